@@ -63,6 +63,16 @@ def node_id(w):
     w.claim('node id layout', got == w.sha256(Seq.from_bytes(bytes.fromhex('c6b41348')) + w.bytes_seq(pk)))
 
 
+def _spell(hx, j):
+    """equivalent hex spellings of a node id (bytes.fromhex accepts all of them): lower case, upper case, byte-spaced; signature j
+    uses spelling j mod 3, so duplicates of one validator occur with equal (j, j+3) and with different spellings"""
+    if j % 3 == 1:
+        return hx.upper()
+    if j % 3 == 2:
+        return ' '.join(hx[i:i + 2] for i in range(0, len(hx), 2))
+    return hx
+
+
 def _run(w, M, n, names, weights, valid, blk, records):
     """builds validators/signatures and calls the real function; returns outcome"""
     if w.symbolic:
@@ -73,7 +83,7 @@ def _run(w, M, n, names, weights, valid, blk, records):
             j = signature[0]
             return valid[j]
         nodes = [Node(pks[i], weights[i]) for i in range(n)]
-        sigs = [{'node_id_short': M.calculate_node_id_short(pks[v]).hex(), 'signature': bytes([j]) * 64} for j, v in enumerate(names)]
+        sigs = [{'node_id_short': _spell(M.calculate_node_id_short(pks[v]).hex(), j), 'signature': bytes([j]) * 64} for j, v in enumerate(names)]
         with w.stub(M, 'verify_sign', verify):
             return call(M.check_block_signatures, nodes, sigs, blk)
     keys = _native_keys(n + 1)
@@ -85,7 +95,7 @@ def _run(w, M, n, names, weights, valid, blk, records):
         sg = keys[v].sign(msg).signature
         if not valid[j]:
             sg = bytes([sg[0] ^ 1]) + sg[1:]
-        sigs.append({'node_id_short': M.calculate_node_id_short(pks[v]).hex(), 'signature': sg})
+        sigs.append({'node_id_short': _spell(M.calculate_node_id_short(pks[v]).hex(), j), 'signature': sg})
     return call(M.check_block_signatures, nodes, sigs, blk)
 
 
@@ -194,7 +204,7 @@ def step(w, names):
 
     def verify(public_key, signed_message, signature):
         return v_first if signature[0] == 0 else v_next
-    mk = lambda v, j: {'node_id_short': M.calculate_node_id_short(_pk(v)).hex(), 'signature': bytes([j]) * 64}
+    mk = lambda v, j: {'node_id_short': _spell(M.calculate_node_id_short(_pk(v)).hex(), j), 'signature': bytes([j]) * 64}
     if not w.symbolic:
         # native replay: the whole function on [valid signature of validator 0, the next signature]
         nxt = {'new': 1, 'duplicate': 0, 'foreign': 2}[names]
